@@ -312,4 +312,15 @@ func neighbourOps(c *props.Ctx, cfg eng.ShapeConfig) {
 	}
 	c.R.Floor("CROP-1", 1)
 	c.R.Floor("CROP-2", 1)
+	// weld: degenerate-triangle filter over the five equality patterns
+	if fn := p.Func("modeling", "Mesh.WeldByFloat3Attribute"); fn == nil {
+		c.R.Failf("anchor modeling.Mesh.WeldByFloat3Attribute not found")
+	} else {
+		isKey := func(o types.Object) bool {
+			f, ok := o.(*types.Func)
+			return ok && ssau.IsFunc(f, mc.ModelingPath, "Vector3ToInt")
+		}
+		reportShape(c, fn, eng.AnalyseDegenerateDrop(fn, isKey), nil)
+	}
+	c.R.Floor("DEGEN-1", 1)
 }
